@@ -716,7 +716,7 @@ var defects = map[string][]string{
 		"permissive-three-links-one-disagrees-0", "permissive-three-links-one-disagrees-1", "permissive-three-links-one-disagrees-2"},
 	"c06": {"empty-layout-expired", "empty-layout-undated", "empty-layout-in-date", "future-trailing-newline", "future-leading-space", "future-wrapped-unicode-space",
 		"sub-expired", "sub-undated", "sub-rfc3339-offset", "none", "expired-long", "expired-2s", "future-1h", "garbage", "empty", "rfc3339-offset", "date-only", "year-9999", "fraction", "lowercase"},
-	"c08": {"sub-insp-killed-by-signal", "sub-same-step-name-upper-link-missing", "sub-same-step-name-both-present", "sub-wide-9", "sub-defective-beside-good-link-large", "sub-insp-named-like-first-step", "sub-insp-named-like-last-step", "sub-defective-beside-good-link", "sub-ok", "sub-ok", "sub-badsig", "sub-expired", "sub-missing-link", "sub-rule-violation", "sub-unauthorised", "sub-nested", "sub-nested-defect", "sub-summary-mismatch", "sub-summary-mismatch-other-algorithm"},
+	"c08": {"sub-insp-killed-by-signal", "sub-same-step-name-sub-directory-absent", "sub-same-step-name-upper-link-missing", "sub-same-step-name-both-present", "sub-wide-9", "sub-defective-beside-good-link-large", "sub-insp-named-like-first-step", "sub-insp-named-like-last-step", "sub-defective-beside-good-link", "sub-ok", "sub-ok", "sub-badsig", "sub-expired", "sub-missing-link", "sub-rule-violation", "sub-unauthorised", "sub-nested", "sub-nested-defect", "sub-summary-mismatch", "sub-summary-mismatch-other-algorithm"},
 	"c10": {"history-same-params", "history-diff-params", "history-no-params", "history-mixed", "mixed-cert-key", "mixed-cert-key", "mixed-cert-key-unsorted", "summary-byproducts", "direct-unclean",
 		"history-empty-command-argument", "history-dir-relative-inspection-fails-midway", "mixed-cert-key-dir", "history-layout-keys-share-short-id", "history-four-links-two-groups", "history-dir-inspection-relative-command", "history-caller-intermediates-spare-capacity", "mixed-cert-key-other-step-constraint-mismatch", "history-two-sublayouts-same-functionary", "history-multi-alg", "history-multi-alg-mismatch", "history-whitespace-rule", "history-unclean-rule-pattern", "history-param-value-has-marker", "mixed-cert-key-marker-constraint", "history-threshold-zero"},
 	"c09": {"match-materials-then-products-of-one-step", "require-on-empty-queue", "insp-killed-by-signal", "socket-file-added", "unclean-disallow-pattern-product-added", "star-class-pattern-product-added", "dangling-symlink-added", "step-rule-fails-no-inspection-may-run", "symlinked-dir-before-tampered-product", "symlinked-dir-untouched", "product-crlf-rewritten", "product-crlf-rewritten-normalised", "large-product-tampered-tail", "large-product-untouched", "product-added-ignorable-name-0", "product-added-ignorable-name-1", "product-added-ignorable-name-2", "product-added-ignorable-name-3",
@@ -1062,7 +1062,7 @@ func genScenario(r *lib.Rng, focus string, idx int) *Scn {
 				}
 				sc.Steps = append(sc.Steps, StepSpec{Name: fmt.Sprintf("wide%d", k), Keys: []string{key}, Threshold: 1, Signers: []string{key}, Op: "create", Sub: sub, SubSigner: key})
 			}
-		case "sub-same-step-name-upper-link-missing", "sub-same-step-name-both-present":
+		case "sub-same-step-name-upper-link-missing", "sub-same-step-name-both-present", "sub-same-step-name-sub-directory-absent":
 			// a step name occurs at two levels, carried out by the same functionary: the parent's step "pkg" and a step "pkg"
 			// inside the sublayout delivered for the parent's step "zz-delegated".  Evidence for a step is looked up in the
 			// link directory of ITS layout only: a missing upper link is not replaced by the nested one, and an upper link
@@ -1078,7 +1078,7 @@ func genScenario(r *lib.Rng, focus string, idx int) *Scn {
 			}
 			sc.Insps, sc.ExpectLog, sc.Params = nil, nil, nil
 			sc.Permissive, sc.InspPermissive = true, true
-			if d == "sub-same-step-name-upper-link-missing" {
+			if d == "sub-same-step-name-upper-link-missing" || d == "sub-same-step-name-sub-directory-absent" {
 				sc.Expect = "reject"
 			}
 		case "sub-defective-beside-good-link-large":
@@ -1179,7 +1179,7 @@ func genScenario(r *lib.Rng, focus string, idx int) *Scn {
 		default:
 			sc.Expect = "reject"
 		}
-		if sc.Expect == "reject" && d != "sub-defective-beside-good-link" && d != "sub-defective-beside-good-link-large" && d != "sub-same-step-name-upper-link-missing" {
+		if sc.Expect == "reject" && d != "sub-defective-beside-good-link" && d != "sub-defective-beside-good-link-large" && d != "sub-same-step-name-upper-link-missing" && d != "sub-same-step-name-sub-directory-absent" {
 			// the sublayout is the only evidence for that step unless threshold is met otherwise: force it to be needed
 			st.Threshold = len(st.Signers)
 		}
@@ -1990,6 +1990,10 @@ func applySubDefectKind(sc *Scn, w *world, kind string, second bool) {
 		case "sub-same-step-name-upper-link-missing":
 			// the parent's own link for "pkg" is missing; the sublayout's directory still holds a link of that name by the same key
 			must(os.Remove(filepath.Join(w.linkDir, linkFile("pkg", pk(sc.Steps[1].Signers[0]).Pub.KeyID))))
+		case "sub-same-step-name-sub-directory-absent":
+			// the sublayout's link directory does not exist at all; the PARENT's directory holds a link "pkg" by the very key the
+			// sublayout authorises for its own step "pkg": evidence of another level is no evidence for the sublayout
+			must(os.RemoveAll(subDir))
 		case "sub-badsig":
 			editJSON(file, func(wr, pl map[string]interface{}) { pl["readme"] = "altered after signing" })
 		case "sub-missing-link":
